@@ -163,12 +163,13 @@ class Highlighter(object):
         return lines
 
     def _format_token(self, token_type, text):
-        if token_type is None:
-            # No token at all (empty or unavailable source)
+        if token_type is None or not text.strip("\n"):
+            # No token at all (empty or unavailable source), or nothing to style
             return text
 
-        if "<" in text:
-            # Text that looks like markup cannot be styled: show it as it is
+        if "<" in text or text.endswith("\\"):
+            # Text that looks like markup cannot be styled, nor can a comment
+            # whose last backslash would escape the closing tag: show it as it is
             return text.replace("<", "\\<")
 
         return "<{}>{}</>".format(self._theme[token_type], text)
